@@ -7,6 +7,7 @@ import GaleneVerif.Engine.UpE2E
 import GaleneVerif.Engine.Token
 import GaleneVerif.Engine.Auth
 import GaleneVerif.Engine.FuzzMisc
+import GaleneVerif.Engine.Paths
 /-
 Line-protocol driver.  usage: driver <engine> [oracle-only] < trace
 `oracle-only` (failing-input search): model/impl mismatches do not end the case;
@@ -79,7 +80,8 @@ def engines : List (String × EngineDef) :=
     ("upe2e", Galene.Engine.UpE2E.engine),
     ("token", Galene.Engine.Token.engine),
     ("auth", Galene.Engine.Auth.engine),
-    ("fuzzmisc", Galene.Engine.FuzzMisc.engine) ]
+    ("fuzzmisc", Galene.Engine.FuzzMisc.engine),
+    ("paths", Galene.Engine.Paths.engine) ]
 
 def main (args : List String) : IO UInt32 := do
   let (name?, oracleOnly) := match args with
